@@ -10,6 +10,7 @@ use vh::tree::{json_bytes, Tree};
 struct Vector {
     id: u64,
     t: u8,
+    need: u64,
     v: Tree,
     bin: Vec<u8>,
     binle: Vec<u8>,
@@ -24,10 +25,11 @@ fn load(path: &str) -> Vec<Vector> {
     BufReader::new(f)
         .lines()
         .map(|l| {
-            let j: Value = serde_json::from_str(&l.unwrap()).unwrap();
+            let j: Value = vh::parse_json(&l.unwrap());
             Vector {
                 id: j["id"].as_u64().unwrap(),
                 t: j["t"].as_u64().unwrap() as u8,
+                need: j["need"].as_u64().unwrap_or(1),
                 v: Tree::from_json(&j["v"]),
                 bin: json_bytes(&j["bin"]),
                 binle: json_bytes(&j["binle"]),
@@ -121,6 +123,8 @@ fn inputs<'a>(v: &'a Vector, p: Proto) -> Vec<(&'static str, &'a [u8])> {
     }
 }
 
+/// MAXIMUM_SKIP_DEPTH: the documented limit of the recursive skippers
+const SKIP_BUDGET: u64 = 64;
 const TRAILER: [u8; 5] = [0x5a, 0xee, 0x77, 0x01, 0x02];
 
 fn run_vectors(path: &str, out: &str) {
@@ -160,16 +164,48 @@ fn run_vectors(path: &str, out: &str) {
                     r.cmp(d.values[1] == Tree::I8(0x5a) && d.ends[1] == enc.len() + 1, v.id, pn, form, "dec-next", || json!({"next": d.values[1].to_json()}));
                     r.cmp(fresh_r(&d.states[0]), v.id, pn, form, "read-leaves-fresh", || d.states[0].clone());
                 }
+                // asynchronous twin: whole stream at once, and one byte at a time with a spurious
+                // Pending before every byte
+                if p != Proto::Unsafe {
+                    use vh::aio::Sched;
+                    let scheds: [(&str, Vec<Sched>, usize); 2] = [
+                        ("whole", vec![], 1 << 20),
+                        ("bytewise+pending", (0..input.len() * 2).map(|i| if i % 2 == 0 { Sched::Pending } else { Sched::Deliver(1) }).collect(), 1),
+                    ];
+                    for (sn, sched, chunk) in scheds {
+                        let tag = format!("{form}/{sn}");
+                        let a = decode_async(p, &input, &[v.t], sched.clone(), chunk, None, false);
+                        if let Some(err) = &a.err {
+                            r.bad(v.id, pn, &tag, "adec-err", json!(err));
+                        } else {
+                            r.cmp(a.values[0] == want, v.id, pn, &tag, "adec-value", || json!({"got": a.values[0].to_json(), "want": want.to_json()}));
+                            r.cmp(a.taken == enc.len(), v.id, pn, &tag, "adec-taken", || json!({"taken": a.taken, "encoded": enc.len()}));
+                        }
+                        let a = decode_async(p, &input, &[v.t], sched, chunk, None, true);
+                        if v.need > SKIP_BUDGET {
+                            r.cmp(a.err.as_deref().map_or(false, |e| e.contains("DepthLimit")), v.id, pn, &tag, "askip-depth", || json!({"need": v.need, "err": a.err}));
+                        } else if let Some(err) = &a.err {
+                            r.bad(v.id, pn, &tag, "askip-err", json!(err));
+                        } else {
+                            r.cmp(a.taken == enc.len(), v.id, pn, &tag, "askip", || json!({"taken": a.taken, "encoded": enc.len()}));
+                        }
+                    }
+                }
                 // skip
                 if p == Proto::Unsafe {
                     let mut f = vec![v.t, 0, 1];
                     f.extend_from_slice(&input);
                     match skip_field_unsafe(&f) {
+                        // the iterative skipper keeps its pending containers on the heap and ignores the
+                        // budget: beyond the limit a correct skip or DepthLimit are both fine, a crash never
+                        Err(e) if v.need > SKIP_BUDGET && e.contains("DepthLimit") => r.ok(),
                         Ok((n, c)) => r.cmp(n == enc.len() && c == enc.len() + 3, v.id, pn, form, "skip", || json!({"reported": n, "consumed": c, "encoded": enc.len()})),
                         Err(e) => r.bad(v.id, pn, form, "skip-err", json!(e)),
                     }
                 } else {
                     match skip_one(p, &input, v.t) {
+                        Err(e) if v.need > SKIP_BUDGET => r.cmp(e.contains("DepthLimit"), v.id, pn, form, "skip-depth", || json!({"need": v.need, "err": e})),
+                        Ok((n, c)) if v.need > SKIP_BUDGET => r.bad(v.id, pn, form, "skip-depth", json!({"need": v.need, "skipped": n, "consumed": c})),
                         Ok((n, c)) => r.cmp(n == enc.len() && c == enc.len(), v.id, pn, form, "skip", || json!({"reported": n, "consumed": c, "encoded": enc.len()})),
                         Err(e) => r.bad(v.id, pn, form, "skip-err", json!(e)),
                     }
@@ -456,7 +492,7 @@ mod walks {
         let mut nwalks = 0u64;
         let mut nsteps = 0u64;
         for line in BufReader::new(f).lines() {
-            let w: Value = serde_json::from_str(&line.unwrap()).unwrap();
+            let w: Value = vh::parse_json(&line.unwrap());
             let id = w["id"].as_u64().unwrap();
             nwalks += 1;
             let steps = w["steps"].as_array().unwrap();
@@ -594,12 +630,323 @@ fn run_record(seed: u64, nvalues: usize, outp: &str) {
     eprintln!("recorded {run} runs, {produced} values, {events} events");
 }
 
+// ------------------------------------------------------------------------------------------------
+// wire: interoperability cases evaluated by TLC from the reference codecs (spec/MCWire.tla)
+mod wire {
+    use super::*;
+    use bytes::{Bytes, BytesMut};
+    use faststr::FastStr;
+    use linkedbytes::LinkedBytes;
+    use pilota::thrift::{binary, binary_le, compact, ApplicationException, ApplicationExceptionKind, Message, TAsyncInputProtocol, TInputProtocol, TLengthProtocol, TMessageIdentifier, TMessageType, TOutputProtocol};
+    use vh::aio::{block_on, ScriptedReader};
+    use vh::tree::from_limbs;
+
+    fn mtype(n: u64) -> TMessageType {
+        TMessageType::try_from(n as u8).unwrap()
+    }
+
+    /// (bytes written, length reported) for write_message_begin on every buffer kind
+    fn write_env(p: Proto, k: BufKind, id: &TMessageIdentifier) -> Result<(Vec<u8>, usize), String> {
+        let r = std::panic::catch_unwind(std::panic::AssertUnwindSafe(|| -> Result<(Vec<u8>, usize), String> {
+            let e = |e| format!("err: {e}");
+            macro_rules! go {
+                ($mk:expr, $flat:expr, $b:ident) => {{
+                    let n;
+                    {
+                        let mut p = $mk;
+                        n = p.message_begin_len(id);
+                        p.write_message_begin(id).map_err(e)?;
+                        p.write_message_end().map_err(e)?;
+                    }
+                    Ok(($flat, n))
+                }};
+            }
+            match (p, k) {
+                (Proto::Bin, BufKind::BytesMut) => {
+                    let mut b = BytesMut::new();
+                    go!(binary::TBinaryProtocol::new(&mut b, false), b.to_vec(), b)
+                }
+                (Proto::Bin, _) => {
+                    let mut b = LinkedBytes::new();
+                    go!(binary::TBinaryProtocol::new(&mut b, k == BufKind::LinkedZc), flatten_linked(&b), b)
+                }
+                (Proto::BinLe, BufKind::BytesMut) => {
+                    let mut b = BytesMut::new();
+                    go!(binary_le::TBinaryProtocol::new(&mut b, false), b.to_vec(), b)
+                }
+                (Proto::BinLe, _) => {
+                    let mut b = LinkedBytes::new();
+                    go!(binary_le::TBinaryProtocol::new(&mut b, k == BufKind::LinkedZc), flatten_linked(&b), b)
+                }
+                (Proto::Compact, BufKind::BytesMut) => {
+                    let mut b = BytesMut::new();
+                    go!(compact::TCompactOutputProtocol::new(&mut b, false), b.to_vec(), b)
+                }
+                (Proto::Compact, _) => {
+                    let mut b = LinkedBytes::new();
+                    go!(compact::TCompactOutputProtocol::new(&mut b, k == BufKind::LinkedZc), flatten_linked(&b), b)
+                }
+                (Proto::Unsafe, _) => Err("n/a".into()),
+            }
+        }));
+        r.unwrap_or_else(|e| Err(panic_msg(e)))
+    }
+
+    fn read_env(p: Proto, input: &[u8]) -> Result<(TMessageIdentifier, usize), String> {
+        let r = std::panic::catch_unwind(std::panic::AssertUnwindSafe(|| -> Result<(TMessageIdentifier, usize), String> {
+            let mut b = Bytes::copy_from_slice(input);
+            let e = |e| format!("err: {e}");
+            let total = b.len();
+            match p {
+                Proto::Bin => {
+                    let mut q = binary::TBinaryProtocol::new(&mut b, false);
+                    let m = q.read_message_begin().map_err(e)?;
+                    q.read_message_end().map_err(e)?;
+                    drop(q);
+                    Ok((m, total - b.len()))
+                }
+                Proto::BinLe => {
+                    let mut q = binary_le::TBinaryProtocol::new(&mut b, false);
+                    let m = q.read_message_begin().map_err(e)?;
+                    drop(q);
+                    Ok((m, total - b.len()))
+                }
+                Proto::Compact => {
+                    let mut q = compact::TCompactInputProtocol::new(&mut b);
+                    let m = q.read_message_begin().map_err(e)?;
+                    drop(q);
+                    Ok((m, total - b.len()))
+                }
+                Proto::Unsafe => {
+                    let mut q = unsafe { pilota::thrift::binary_unsafe::TBinaryUnsafeInputProtocol::new(&mut b) };
+                    let m = q.read_message_begin().map_err(e)?;
+                    let i = q.index();
+                    drop(q);
+                    Ok((m, total - b.len() + i))
+                }
+            }
+        }));
+        r.unwrap_or_else(|e| Err(panic_msg(e)))
+    }
+
+    fn read_env_async(p: Proto, input: &[u8]) -> Result<(TMessageIdentifier, usize), String> {
+        let r = std::panic::catch_unwind(std::panic::AssertUnwindSafe(|| -> Result<(TMessageIdentifier, usize), String> {
+            let mut rd = ScriptedReader::new(input.to_vec(), vec![], 1);
+            let e = |e| format!("err: {e}");
+            let m = match p {
+                Proto::Bin => {
+                    let mut q = binary::TAsyncBinaryProtocol::new(&mut rd);
+                    block_on(Box::pin(q.read_message_begin()), 1_000_000).ok_or("hang")?.map_err(e)?
+                }
+                Proto::BinLe => {
+                    let mut q = binary_le::TAsyncBinaryProtocol::new(&mut rd);
+                    block_on(Box::pin(q.read_message_begin()), 1_000_000).ok_or("hang")?.map_err(e)?
+                }
+                Proto::Compact => {
+                    let mut q = compact::TAsyncCompactProtocol::new(&mut rd);
+                    block_on(Box::pin(q.read_message_begin()), 1_000_000).ok_or("hang")?.map_err(e)?
+                }
+                Proto::Unsafe => return Err("n/a".into()),
+            };
+            Ok((m, rd.pos))
+        }));
+        r.unwrap_or_else(|e| Err(panic_msg(e)))
+    }
+
+    fn enc_appexc(p: Proto, x: &ApplicationException) -> Result<(Vec<u8>, usize), String> {
+        let r = std::panic::catch_unwind(std::panic::AssertUnwindSafe(|| -> Result<(Vec<u8>, usize), String> {
+            let e = |e| format!("err: {e}");
+            let mut b = BytesMut::new();
+            let n;
+            match p {
+                Proto::Bin => {
+                    let mut q = binary::TBinaryProtocol::new(&mut b, false);
+                    n = x.size(&mut q);
+                    x.encode(&mut q).map_err(e)?;
+                }
+                Proto::BinLe => {
+                    let mut q = binary_le::TBinaryProtocol::new(&mut b, false);
+                    n = x.size(&mut q);
+                    x.encode(&mut q).map_err(e)?;
+                }
+                Proto::Compact => {
+                    let mut q = compact::TCompactOutputProtocol::new(&mut b, false);
+                    n = x.size(&mut q);
+                    x.encode(&mut q).map_err(e)?;
+                }
+                Proto::Unsafe => return Err("n/a".into()),
+            }
+            Ok((b.to_vec(), n))
+        }));
+        r.unwrap_or_else(|e| Err(panic_msg(e)))
+    }
+    fn dec_appexc(p: Proto, input: &[u8], asy: bool) -> Result<(ApplicationException, usize), String> {
+        let r = std::panic::catch_unwind(std::panic::AssertUnwindSafe(|| -> Result<(ApplicationException, usize), String> {
+            let e = |e| format!("err: {e}");
+            if asy {
+                let mut rd = ScriptedReader::new(input.to_vec(), vec![], 1);
+                let x = match p {
+                    Proto::Bin => {
+                        let mut q = binary::TAsyncBinaryProtocol::new(&mut rd);
+                        block_on(Box::pin(ApplicationException::decode_async(&mut q)), 1_000_000).ok_or("hang")?.map_err(e)?
+                    }
+                    Proto::BinLe => {
+                        let mut q = binary_le::TAsyncBinaryProtocol::new(&mut rd);
+                        block_on(Box::pin(ApplicationException::decode_async(&mut q)), 1_000_000).ok_or("hang")?.map_err(e)?
+                    }
+                    _ => {
+                        let mut q = compact::TAsyncCompactProtocol::new(&mut rd);
+                        block_on(Box::pin(ApplicationException::decode_async(&mut q)), 1_000_000).ok_or("hang")?.map_err(e)?
+                    }
+                };
+                return Ok((x, rd.pos));
+            }
+            let mut b = Bytes::copy_from_slice(input);
+            let total = b.len();
+            let x = match p {
+                Proto::Bin => ApplicationException::decode(&mut binary::TBinaryProtocol::new(&mut b, false)).map_err(e)?,
+                Proto::BinLe => ApplicationException::decode(&mut binary_le::TBinaryProtocol::new(&mut b, false)).map_err(e)?,
+                _ => ApplicationException::decode(&mut compact::TCompactInputProtocol::new(&mut b)).map_err(e)?,
+            };
+            Ok((x, total - b.len()))
+        }));
+        r.unwrap_or_else(|e| Err(panic_msg(e)))
+    }
+
+    pub fn run(path: &str, outp: &str) {
+        let f = std::fs::File::open(path).unwrap_or_else(|e| panic!("open {path}: {e}"));
+        let mut r = Report { out: Box::new(std::io::BufWriter::new(std::fs::File::create(outp).unwrap())), evals: 0, mism: 0 };
+        let mut n = 0u64;
+        for (li, line) in BufReader::new(f).lines().enumerate() {
+            let j: Value = vh::parse_json(&line.unwrap());
+            let id = li as u64 + 1;
+            n += 1;
+            match j["kind"].as_str().unwrap() {
+                "dec" => {
+                    let p = Proto::parse(j["proto"].as_str().unwrap());
+                    let grp = j["grp"].as_str().unwrap();
+                    let bytes = json_bytes(&j["bytes"]);
+                    let t = j["t"].as_u64().unwrap() as u8;
+                    let strict = j["strict"].as_u64().unwrap() == 1;
+                    let refok = j["ok"].as_u64().unwrap() == 1;
+                    let mut protos = vec![p];
+                    if p == Proto::Bin {
+                        protos.push(Proto::Unsafe);
+                    }
+                    for q in protos {
+                        // the unchecked reader's contract covers well-formed input only
+                        if q == Proto::Unsafe && !refok {
+                            continue;
+                        }
+                        let d = decode_seq(q, &bytes, &[t], false);
+                        let panicked = d.err.as_deref().map_or(false, |e| e.starts_with("panic"));
+                        if panicked {
+                            r.bad(id, q.name(), grp, "wire-panic", json!({"bytes": bytes, "err": d.err}));
+                            continue;
+                        }
+                        if !strict {
+                            r.ok();
+                            continue;
+                        }
+                        if refok {
+                            let want = Tree::from_json(&j["v"]);
+                            let used = j["used"].as_u64().unwrap() as usize;
+                            r.cmp(d.err.is_none() && d.values[0] == want && d.ends[0] == used, id, q.name(), grp, "wire-accept",
+                                  || json!({"bytes": bytes, "err": d.err, "got": d.values.get(0).map(|v| v.to_json()), "want": j["v"], "used": d.ends.get(0), "want_used": used}));
+                        } else {
+                            r.cmp(d.err.is_some(), id, q.name(), grp, "wire-reject", || json!({"bytes": bytes, "got": d.values.get(0).map(|v| v.to_json())}));
+                        }
+                        // the asynchronous reader must agree
+                        if q != Proto::Unsafe {
+                            let a = decode_async(q, &bytes, &[t], vec![], 1, None, false);
+                            let apan = a.err.as_deref().map_or(false, |e| e.starts_with("panic") || e.starts_with("hang"));
+                            r.cmp(!apan && a.err.is_none() == refok, id, q.name(), grp, "wire-async", || json!({"bytes": bytes, "err": a.err, "refok": refok}));
+                        }
+                    }
+                }
+                "env" => {
+                    let name = json_bytes(&j["name"]);
+                    let ident = TMessageIdentifier::new(FastStr::new(std::str::from_utf8(&name).unwrap()), mtype(j["mtype"].as_u64().unwrap()), from_limbs(&j["seq"]) as u32 as i32);
+                    for p in [Proto::Bin, Proto::BinLe, Proto::Compact] {
+                        let want = json_bytes(&j[p.name()]);
+                        for k in BufKind::ALL {
+                            match write_env(p, k, &ident) {
+                                Ok((b, len)) => {
+                                    r.cmp(b == want, id, p.name(), k.name(), "env-bytes", || json!({"got": b, "want": want}));
+                                    r.cmp(len == want.len(), id, p.name(), k.name(), "env-len", || json!({"reported": len, "written": want.len()}));
+                                }
+                                Err(e) => r.bad(id, p.name(), k.name(), "env-write-err", json!(e)),
+                            }
+                        }
+                        let mut input = want.clone();
+                        input.extend_from_slice(&[9, 9, 9]);
+                        let mut readers = vec![(p, false), (p, true)];
+                        if p == Proto::Bin {
+                            readers.push((Proto::Unsafe, false));
+                        }
+                        for (q, asy) in readers {
+                            let res = if asy { read_env_async(q, &input) } else { read_env(q, &input) };
+                            let tag = if asy { "async" } else { "sync" };
+                            match res {
+                                Ok((m, used)) => r.cmp(m == ident && used == want.len(), id, q.name(), tag, "env-read", || json!({"got": format!("{m:?}"), "want": format!("{ident:?}"), "used": used, "len": want.len()})),
+                                Err(e) => r.bad(id, q.name(), tag, "env-read-err", json!(e)),
+                            }
+                        }
+                    }
+                }
+                "badenv" => {
+                    let p = Proto::parse(j["proto"].as_str().unwrap());
+                    let bytes = json_bytes(&j["bytes"]);
+                    for asy in [false, true] {
+                        let res = if asy { read_env_async(p, &bytes) } else { read_env(p, &bytes) };
+                        match res {
+                            Ok((m, _)) => r.bad(id, p.name(), j["why"].as_str().unwrap(), "env-reject", json!({"bytes": bytes, "accepted_as": format!("{m:?}"), "async": asy})),
+                            Err(e) => r.cmp(!e.starts_with("panic") && !e.starts_with("hang"), id, p.name(), j["why"].as_str().unwrap(), "env-reject-panic", || json!({"bytes": bytes, "err": e})),
+                        }
+                    }
+                }
+                "appexc" => {
+                    let msg = String::from_utf8(json_bytes(&j["msg"])).unwrap();
+                    let code = from_limbs(&j["code"]) as u32 as i32;
+                    let order = j["order"].as_str().unwrap();
+                    let x = ApplicationException::new(ApplicationExceptionKind::from(code), msg.clone());
+                    for p in [Proto::Bin, Proto::BinLe, Proto::Compact] {
+                        let want = json_bytes(&j[p.name()]);
+                        if order == "12" {
+                            match enc_appexc(p, &x) {
+                                Ok((b, len)) => {
+                                    r.cmp(b == want, id, p.name(), order, "appexc-bytes", || json!({"got": b, "want": want}));
+                                    r.cmp(len == want.len(), id, p.name(), order, "appexc-size", || json!({"reported": len, "written": want.len()}));
+                                }
+                                Err(e) => r.bad(id, p.name(), order, "appexc-enc-err", json!(e)),
+                            }
+                        }
+                        let mut input = want.clone();
+                        input.extend_from_slice(&[9, 9]);
+                        for asy in [false, true] {
+                            match dec_appexc(p, &input, asy) {
+                                Ok((y, used)) => r.cmp(y.message().as_str() == msg.as_str() && y.kind().as_i32() == code && used == want.len(), id, p.name(), order, "appexc-dec",
+                                                       || json!({"async": asy, "got_msg": y.message().as_str(), "got_kind": y.kind().as_i32(), "used": used, "len": want.len()})),
+                                Err(e) => r.bad(id, p.name(), order, "appexc-dec-err", json!({"async": asy, "err": e})),
+                            }
+                        }
+                    }
+                }
+                k => panic!("wire kind {k}"),
+            }
+        }
+        writeln!(r.out, "{}", json!({"kind":"summary","cases":n,"evaluations":r.evals,"mismatches":r.mism})).unwrap();
+        r.out.flush().unwrap();
+    }
+}
+
 fn main() {
-    vh::quiet_panics();
+    if std::env::var("VERIF_LOUD").is_err() { vh::quiet_panics(); }
     let a: Vec<String> = std::env::args().collect();
     match a.get(1).map(|s| s.as_str()) {
         Some("vectors") => run_vectors(&a[2], &a[3]),
         Some("walks") => walks::run(&a[2], &a[3]),
+        Some("wire") => wire::run(&a[2], &a[3]),
         Some("record") => run_record(a[2].parse().unwrap(), a[3].parse().unwrap(), &a[4]),
         _ => {
             eprintln!("usage: drive vectors <in.ndjson> <out.ndjson>");
